@@ -68,7 +68,8 @@ def explore(core, pid, cmds, min_events=4, judge=None, with_corpus=True, race_cm
         for argv, rep in races:
             # a reported data race is a concrete failing execution of the "free of data races" clause
             blocks.append(["# go race detector report for: harness " + argv] + rep)
-            r["bad"].append((len(blocks) - 1, 0, "cex", "DATA RACE reported by the Go race detector running: harness_race " + argv, rep[0] if rep else ""))
+            what = "the race-detector build of the harness died running: harness_race " if rep and rep[0].startswith("(no DATA RACE") else "DATA RACE reported by the Go race detector running: harness_race "
+            r["bad"].append((len(blocks) - 1, 0, "cex", what + argv, rep[0] if rep else ""))
             r["summary"]["cex"] = str(int(r["summary"].get("cex", 0)) + 1)
     r["race_runs"] = {"commands": [" ".join(map(str, c)) for c in (race_cmds or [])], "reports": len(races)}
     r.update({"scripts": None, "trace_of": trace_of, "n_scripts": len(blocks), "distinct_nontrivial": len(distinct),
